@@ -37,7 +37,9 @@ def stmt(kind, i, v):
         return ["CDecay", ["anti-Zq", "Zr-", "anti-Zq"][i] if v else ["anti-Zq", "Zr-", "Zs+"][i]]
     if kind == "Particle":
         name = ["rho0", "MyRho", "rho0"][i]
-        return ["Particle", name, num.lstrip("+-"), None if (i + v) % 2 == 0 else NUMS[(i + v + 2) % len(NUMS)].lstrip("+-")]
+        # statements 0 and 2 name the same particle: width absent/absent, given/absent (v=1), absent/given (v=2)
+        given = [[False, True, False], [True, False, False], [False, False, True]][v % 3][i]
+        return ["Particle", name, num.lstrip("+-"), NUMS[(i + v + 2) % len(NUMS)].lstrip("+-") if given else None]
     if kind == "Pythia":
         k = ["PythiaBothParam", "PythiaAliasParam", "PythiaBothParam"][i]
         return ["Pythia", k, "ParticleDecays", ["mixB", "tau0Max", "mixB"][i], [["off", "on", "x1"], [num, num, num]][v % 2][i] if v < 2 else ["-1.", "word", "3"][i]]
